@@ -242,6 +242,8 @@ class QpointsPhonon:
             dynmat = run_dynamical_matrix_solver_c(
                 self._dynamical_matrix, self._qpoints, self._nac_q_direction
             )
+            if self._dynamical_matrix.decimals is not None:
+                dynmat = dynmat.round(decimals=self._dynamical_matrix.decimals)
             eigenvectors = dynmat
         elif self._with_eigenvectors:
             dtype = "c%d" % (np.dtype("double").itemsize * 2)
